@@ -100,6 +100,12 @@ def lex(text):
             toks.append(('id', m.group(0), ws, i)); ws = ''
             i = m.end()
             continue
+        if c == '$' and i + 1 < n and ID_START.match(text[i + 1]):
+            # macro metavariable `$name` (inside a macro_rules! body): one identifier-like token, so that //@subst can bind it
+            m = ID_RE.match(text, i + 1)
+            toks.append(('id', '$' + m.group(0), ws, i)); ws = ''
+            i = m.end()
+            continue
         if c.isdigit():
             m = NUM_RE.match(text, i)
             s = m.group(0)
